@@ -6,7 +6,11 @@
    The declarative side ([violates_baseline], [violates_reporting], Model/Sufficiency.v) is the statement's list:
    span outside 329-365 days; under 90 % of the span in whole days with valid usage / valid temperature / both (each
    timestamp's period up to the next timestamp); a month of the year under 90 % temperature (hourly: usage, irradiance)
-   coverage; negative usage of a non-electric baseline; no data at all. *)
+   coverage; negative usage of a non-electric baseline; no data at all.
+
+   Part A: theorems about the model for every parameter record (they never depend on the regenerated file).
+   Part B (end of the file): the regenerated parameters say what the statement says, and what follows for the code
+   as it is now, including the refuted corners (recorded findings C10-F1 .. F4). *)
 From Coq Require Import ZArith QArith List Bool.
 From V Require Import Model.Sufficiency Model.SufficiencyRun Generated.SufficiencyGen Proofs.SufficiencyProofs.
 Import ListNotations.
@@ -18,22 +22,7 @@ Definition C10_statement : Prop :=
     exists dq ws, dataclass code_params f w el cx fr = Accepted dq ws /\
       forall n, In n dq <-> match w with Baseline => violates_baseline f el fr n | Reporting => violates_reporting f fr n end.
 
-(* the faithful model of the unchanged code does not satisfy it everywhere: *)
-Theorem C10_statement_refuted : ~ C10_statement.
-Proof. exact statement_refuted_l. Qed.
-Print Assumptions C10_statement_refuted.
-
-(* ... it does inside [guard]: baseline data has a usage column; reporting data is declared as such to the criteria
-   class and its usage column is absent or complete; no off-cycle billing read (or those go to the warnings) *)
-Theorem C10_statement_partial : forall f w el cx fr, guard f w cx fr ->
-  exists dq ws, dataclass code_params f w el cx fr = Accepted dq ws /\
-    forall n, In n dq <-> match w with Baseline => violates_baseline f el fr n | Reporting => violates_reporting f fr n end.
-Proof. exact statement_partial_l. Qed.
-Print Assumptions C10_statement_partial.
-
-Example C10_statement_partial_witness : guard Daily Baseline cx0 (mkframe true false (ex_full 340)) /\
-  dataclass code_params Daily Baseline false cx0 (mkframe true false (ex_full 340)) = Accepted [] [].
-Proof. exact ex_baseline_clean. Qed.
+(* ======================================================= Part A ======================================================= *)
 
 (* ---- baseline: soundness and completeness of the reported set, for every parameter record that says what the
    statement says (any order of the checks) ---- *)
@@ -44,25 +33,21 @@ Theorem C10_baseline_dq_exact : forall p f el cx fr,
 Proof. exact baseline_dq_exact_l. Qed.
 Print Assumptions C10_baseline_dq_exact.
 
-(* ... and for the code as it is now, with the one extra name it can report *)
-Theorem C10_baseline_dq_exact_code : forall f el cx fr, f_has_obs fr = true ->
-  exists dq ws, dataclass code_params f Baseline el cx fr = Accepted dq ws /\ NoDup dq /\
-    forall n, In n dq <->
-      violates_baseline f el fr n \/ (n = OffcycleReads /\ f = Billing /\ x_offcycle cx = true /\ gen_offcycle_dq = true).
-Proof. exact baseline_dq_exact_code_l. Qed.
-Print Assumptions C10_baseline_dq_exact_code.
+Example C10_baseline_witness : params_ok published = true /\ p_offcycle_dq published = false /\
+  dataclass published Daily Baseline false cx0 (mkframe true false (ex_full 340)) = Accepted [] [].
+Proof. split; [reflexivity|split; [reflexivity|exact (proj2 ex_baseline_clean)]]. Qed.
 
 (* on / one day past the 90 % threshold and at the four span limits *)
 Example C10_baseline_threshold_witness :
-  dq_of (dataclass code_params Daily Baseline false cx0 (mkframe true false (ex_temp_gap 340 100 34 (Some (5 # 1)%Q))))
+  dq_of (dataclass published Daily Baseline false cx0 (mkframe true false (ex_temp_gap 340 100 34 (Some (5 # 1)%Q))))
   = [TooManyDaysMissingData; TooManyDaysMissingTemperature] /\
-  dq_of (dataclass code_params Daily Baseline false cx0 (mkframe true false (ex_temp_gap 340 100 33 (Some (5 # 1)%Q))))
+  dq_of (dataclass published Daily Baseline false cx0 (mkframe true false (ex_temp_gap 340 100 33 (Some (5 # 1)%Q))))
   = [] /\
   whole_days temp_valid90 (ex_temp_gap 340 100 33 (Some (5 # 1)%Q)) = 306.
 Proof. exact ex_baseline_threshold. Qed.
 
 Example C10_span_limits_witness :
-  map (fun n => dq_of (dataclass code_params Daily Baseline true cx0 (mkframe true false (ex_full n)))) [328; 329; 365; 366]%nat
+  map (fun n => dq_of (dataclass published Daily Baseline true cx0 (mkframe true false (ex_full n)))) [328; 329; 365; 366]%nat
   = [[IncorrectNumberOfTotalDays]; []; []; [IncorrectNumberOfTotalDays]].
 Proof. exact ex_span_limits. Qed.
 
@@ -74,44 +59,20 @@ Theorem C10_reporting_dq_exact : forall p f el cx fr,
 Proof. exact reporting_dq_exact_l. Qed.
 Print Assumptions C10_reporting_dq_exact.
 
-Theorem C10_reporting_dq_exact_code : forall f el cx fr, gen_reporting_flag f = true -> usage_irrelevant fr ->
-  exists dq ws, dataclass code_params f Reporting el cx fr = Accepted dq ws /\ NoDup dq /\
-    forall n, In n dq <->
-      violates_reporting f fr n \/ (n = OffcycleReads /\ f = Billing /\ x_offcycle cx = true /\ gen_offcycle_dq = true).
-Proof. exact reporting_dq_exact_code_l. Qed.
-Print Assumptions C10_reporting_dq_exact_code.
-
 Example C10_reporting_witness :
+  usage_irrelevant (mkframe false false (ex_temp_gap 300 150 31 None)) /\
   dq_of (dataclass published Daily Reporting true cx0 (mkframe false false (ex_temp_gap 300 150 31 None)))
   = [TooManyDaysMissingData; TooManyDaysMissingTemperature; MissingMonthlyTemperature].
 Proof. exact ex_reporting_verdict. Qed.
 
-(* ---- the regenerated parameters say what the statement says (thresholds, ceil(0.9 * 365) = 329, the sets of checks) ---- *)
-Theorem C10_code_params_published : params_ok code_params = true.
-Proof. exact code_params_published. Qed.
-Print Assumptions C10_code_params_published.
-
-Theorem C10_code_min_length : code_min_len = 329 /\ gen_max_baseline_length = 365.
-Proof. exact code_min_length. Qed.
-Print Assumptions C10_code_min_length.
-
-(* ---- exactly at each threshold: the binary64 comparisons of the code are the integer comparisons of the model, for
-   every pair of counts up to 1000 (finite check inside the kernel, the bound is part of the statement) ---- *)
-Theorem C10_threshold_exact : forall n d, 0 <= n <= 1000 -> 1 <= d <= 1000 ->
-  frac_lt gen_min_fraction_daily_coverage n d = (10 * n <? 9 * d) /\
-  frac_gt gen_min_fraction_hourly_temperature_coverage n d = (9 * d <? 10 * n).
+(* ---- exactly at each threshold: binary64 comparisons against a constant that passes the table are the integer
+   comparisons of the model, for every pair of counts up to 1000 (the table of the regenerated constants is Part B) ---- *)
+Theorem C10_threshold_exact_for : forall thr_days thr_hours,
+  threshold_table THRESHOLD_BOUND thr_days = true -> threshold_table THRESHOLD_BOUND thr_hours = true ->
+  forall n d, 0 <= n <= 1000 -> 1 <= d <= 1000 ->
+  frac_lt thr_days n d = (10 * n <? 9 * d) /\ frac_gt thr_hours n d = (9 * d <? 10 * n).
 Proof. exact threshold_exact_l. Qed.
-Print Assumptions C10_threshold_exact.
-
-Theorem C10_under_is_float : forall n d, 0 <= n <= 1000 -> 1 <= d <= 1000 ->
-  under code_params n (Some d) = frac_lt gen_min_fraction_daily_coverage n d.
-Proof. exact under_is_float_l. Qed.
-Print Assumptions C10_under_is_float.
-
-Example C10_threshold_witness :
-  frac_lt gen_min_fraction_daily_coverage 306 340 = false /\ frac_lt gen_min_fraction_daily_coverage 305 340 = true /\
-  frac_lt gen_min_fraction_daily_coverage 27 30 = false.
-Proof. vm_compute. repeat split. Qed.
+Print Assumptions C10_threshold_exact_for.
 
 (* ---- warnings never change the verdict ---- *)
 Theorem C10_warnings_never_change_verdict : forall p f w el cx cx' fr,
@@ -129,8 +90,8 @@ Print Assumptions C10_usage_magnitude_never_changes_verdict.
 
 Example C10_usage_magnitude_witness :
   Forall2 same_shape ex_negative (map (fun i => ex_row i (Some (if Nat.eqb i 7 then (-1 # 2) else (1 # 1))%Q) true) (seq 0 340)) /\
-  dataclass code_params Daily Baseline false cx0 (mkframe true false ex_negative) = Accepted [NegativeMeterValues] [ExtremeValues] /\
-  dataclass code_params Daily Baseline true cx0 (mkframe true false ex_negative) = Accepted [] [ExtremeValues].
+  dataclass published Daily Baseline false cx0 (mkframe true false ex_negative) = Accepted [NegativeMeterValues] [ExtremeValues] /\
+  dataclass published Daily Baseline true cx0 (mkframe true false ex_negative) = Accepted [] [ExtremeValues].
 Proof. exact (conj ex_same_shape ex_negative_verdicts). Qed.
 
 (* the four warnings are what the context and the extreme-value rule say, whatever the verdict *)
@@ -146,14 +107,6 @@ Theorem C10_warnings_spec : forall p f w el cx fr dq ws n,
 Proof. exact warnings_spec_l. Qed.
 Print Assumptions C10_warnings_spec.
 
-(* off-cycle reads do change the verdict of the code as it is (recorded finding C10-F1) *)
-Theorem C10_offcycle_changes_verdict_refuted : gen_offcycle_dq = true ->
-  In OffcycleReads (dq_of (dataclass code_params Billing Baseline true cx_off (mkframe true false (ex_full 340)))) /\
-  dq_of (dataclass code_params Billing Baseline true cx0 (mkframe true false (ex_full 340))) = [] /\
-  ~ violates_baseline Billing true (mkframe true false (ex_full 340)) OffcycleReads.
-Proof. exact refuted_offcycle_l. Qed.
-Print Assumptions C10_offcycle_changes_verdict_refuted.
-
 (* ---- every well-formed input is accepted ---- *)
 Theorem C10_accepts_wellformed : forall p f w el cx fr,
   is_reporting_flag p f w = true \/ f_has_obs fr = true ->
@@ -166,29 +119,151 @@ Theorem C10_raises_exactly : forall p f w el cx fr e,
 Proof. exact dataclass_raises. Qed.
 Print Assumptions C10_raises_exactly.
 
-(* a baseline whose usage is entirely missing is not accepted (recorded finding C10-F3) *)
-Theorem C10_accepts_wellformed_refuted :
-  dataclass code_params Daily Baseline true cx0 (mkframe false false (map (fun i => ex_row i None true) (seq 0 340)))
-  = Raised AttributeError.
+(* a baseline whose usage is entirely missing (the data class drops the column) is not accepted (C10-F3) *)
+Theorem C10_accepts_wellformed_refuted : forall p f el cx rows,
+  dataclass p f Baseline el cx (mkframe false false rows) = Raised AttributeError.
 Proof. exact refuted_no_usage_l. Qed.
 Print Assumptions C10_accepts_wellformed_refuted.
 
-(* hourly reporting data is judged by the usage rules (recorded finding C10-F2) *)
-Theorem C10_hourly_reporting_refuted : gen_reporting_flag Hourly = false ->
-  let fr := mkframe true false (map (fun i => ex_row i None true) (seq 0 340)) in
-  In NoData (dq_of (dataclass code_params Hourly Reporting true cx0 fr)) /\ ~ violates_reporting Hourly fr NoData.
-Proof. exact refuted_hourly_reporting_l. Qed.
+(* ---- where the model leaves the statement, what it reports instead is characterised exactly ---- *)
+(* off-cycle billing reads, when they are appended to .disqualification (C10-F1) *)
+Theorem C10_offcycle_changes_verdict_refuted : forall p el fr,
+  params_ok p = true -> p_offcycle_dq p = true -> f_has_obs fr = true ->
+  In OffcycleReads (dq_of (dataclass p Billing Baseline el cx_off fr)) /\
+  ~ In OffcycleReads (dq_of (dataclass p Billing Baseline el cx0 fr)) /\
+  ~ violates_baseline Billing el fr OffcycleReads.
+Proof. exact refuted_offcycle_l. Qed.
+Print Assumptions C10_offcycle_changes_verdict_refuted.
+
+(* hourly reporting data while the criteria class is not told that it is reporting data (C10-F2) *)
+Theorem C10_hourly_reporting_as_coded : forall p el cx fr n,
+  params_ok p = true -> p_reporting_flag p Hourly = false -> f_has_obs fr = true ->
+  (In n (dq_of (dataclass p Hourly Reporting el cx fr)) <-> violates_reporting_as_baseline fr n).
+Proof. exact hourly_reporting_as_coded_l. Qed.
+Print Assumptions C10_hourly_reporting_as_coded.
+
+Theorem C10_hourly_reporting_refuted : forall p el cx n, (0 < n)%nat ->
+  params_ok p = true -> p_reporting_flag p Hourly = false ->
+  let fr := mkframe true false (ex_no_usage n) in
+  In NoData (dq_of (dataclass p Hourly Reporting el cx fr)) /\ ~ violates_reporting Hourly fr NoData.
+Proof. exact hourly_reporting_no_usage_l. Qed.
 Print Assumptions C10_hourly_reporting_refuted.
 
-(* the span of reporting data is measured over the rows that have usage (recorded finding C10-F4) *)
-Theorem C10_reporting_partial_usage_refuted :
-  dq_of (dataclass code_params Daily Reporting true cx0 ex_rep_partial) = [MissingMonthlyTemperature] /\
-  violates_reporting Daily ex_rep_partial TooManyDaysMissingTemperature.
-Proof. exact refuted_reporting_partial_usage_l. Qed.
+(* reporting data with any usage column: valid days by temperature, span over the rows that also have usage (C10-F4) *)
+Theorem C10_reporting_as_coded : forall p f el cx fr n,
+  params_ok p = true -> p_reporting_flag p f = true ->
+  (In n (dq_of (dataclass p f Reporting el cx fr)) <->
+   violates_reporting_span_over_usage f fr n \/ (n = OffcycleReads /\ offcycle_dq p f cx = true)).
+Proof. exact reporting_as_coded_l. Qed.
+Print Assumptions C10_reporting_as_coded.
+
+Theorem C10_reporting_partial_usage_refuted : forall p f el cx, params_ok p = true -> p_reporting_flag p f = true ->
+  ~ In TooManyDaysMissingTemperature (dq_of (dataclass p f Reporting el cx ex_rep_partial)) /\
+  violates_reporting f ex_rep_partial TooManyDaysMissingTemperature.
+Proof. exact reporting_partial_usage_l. Qed.
 Print Assumptions C10_reporting_partial_usage_refuted.
+
+(* the hypotheses of the four theorems above are satisfiable: the statement's parameters with the constructor flags of
+   today's code *)
+Example C10_as_coded_witness : params_ok as_coded = true /\ p_reporting_flag as_coded Hourly = false /\ p_offcycle_dq as_coded = true /\
+  dq_of (dataclass as_coded Hourly Reporting true cx0 (mkframe true false (ex_no_usage 340)))
+  = [NoData; TooManyDaysMissingData; TooManyDaysMissingTemperature] /\
+  dq_of (dataclass as_coded Daily Reporting true cx0 ex_rep_partial) = [MissingMonthlyTemperature] /\
+  dq_of (dataclass as_coded Billing Baseline true cx_off (mkframe true false (ex_full 340))) = [OffcycleReads].
+Proof. exact ex_as_coded. Qed.
 
 (* ---- the frames of the correspondence: the run-length expansion (civil month cached per local day) is the plain one ---- *)
 Theorem C10_frame_expansion : forall t step n off obs tp cov g a,
   expand_seg (t, step, n, off, obs, tp, cov, g, a) = expand_seg_simple (Z.to_nat n) t step off obs tp cov g a.
 Proof. exact expand_seg_simple_eq. Qed.
 Print Assumptions C10_frame_expansion.
+
+(* the full statement fails in the model of the unchanged code (a baseline without any usage raises) *)
+Theorem C10_statement_refuted : ~ C10_statement.
+Proof. exact statement_refuted_l. Qed.
+Print Assumptions C10_statement_refuted.
+
+(* ======================================================= Part B =======================================================
+   the regenerated parameters (checked inside the kernel against what the source says now) *)
+
+(* MIN_BASELINE_LENGTH = ceil(0.9 * 365), evaluated in binary64 as python does *)
+Theorem C10_code_min_length : code_min_len = 329 /\ gen_max_baseline_length = 365.
+Proof. vm_compute. split; reflexivity. Qed.
+Print Assumptions C10_code_min_length.
+
+(* thresholds, span limits and the *sets* of checks of the six entry points are the statement's (any order) *)
+Theorem C10_code_params_published : params_ok code_params = true.
+Proof. vm_compute. reflexivity. Qed.
+Print Assumptions C10_code_params_published.
+
+(* the two binary64 constants of the code pass the table: 1000 x 1001 quotients each, evaluated inside the kernel *)
+Theorem C10_daily_coverage_table : threshold_table THRESHOLD_BOUND gen_min_fraction_daily_coverage = true.
+Proof. vm_cast_no_check (eq_refl true). Qed.
+Print Assumptions C10_daily_coverage_table.
+
+Theorem C10_hourly_coverage_table : threshold_table THRESHOLD_BOUND gen_min_fraction_hourly_temperature_coverage = true.
+Proof. vm_cast_no_check (eq_refl true). Qed.
+Print Assumptions C10_hourly_coverage_table.
+
+Theorem C10_threshold_exact : forall n d, 0 <= n <= 1000 -> 1 <= d <= 1000 ->
+  frac_lt gen_min_fraction_daily_coverage n d = (10 * n <? 9 * d) /\
+  frac_gt gen_min_fraction_hourly_temperature_coverage n d = (9 * d <? 10 * n).
+Proof. exact (threshold_exact_l _ _ C10_daily_coverage_table C10_hourly_coverage_table). Qed.
+Print Assumptions C10_threshold_exact.
+
+Theorem C10_under_is_float : forall n d, 0 <= n <= 1000 -> 1 <= d <= 1000 ->
+  under code_params n (Some d) = frac_lt gen_min_fraction_daily_coverage n d.
+Proof. exact (under_is_float_l code_params _ eq_refl eq_refl C10_daily_coverage_table). Qed.
+Print Assumptions C10_under_is_float.
+
+Example C10_threshold_witness :
+  frac_lt gen_min_fraction_daily_coverage 306 340 = false /\ frac_lt gen_min_fraction_daily_coverage 305 340 = true /\
+  frac_lt gen_min_fraction_daily_coverage 27 30 = false.
+Proof. vm_compute. repeat split. Qed.
+
+(* ---- the code as it is: the statement inside [guard] (baseline data has a usage column; reporting data is declared as
+   such to the criteria class and its usage column is absent or complete; no off-cycle billing read, or those go to
+   the warnings) ---- *)
+Theorem C10_statement_partial : forall f w el cx fr, guard f w cx fr ->
+  exists dq ws, dataclass code_params f w el cx fr = Accepted dq ws /\
+    forall n, In n dq <-> match w with Baseline => violates_baseline f el fr n | Reporting => violates_reporting f fr n end.
+Proof. exact (statement_partial_l C10_code_params_published). Qed.
+Print Assumptions C10_statement_partial.
+
+Example C10_statement_partial_witness : guard Daily Baseline cx0 (mkframe true false (ex_full 340)).
+Proof. exact (proj1 ex_baseline_clean). Qed.
+
+(* ... and with the one extra name it can report *)
+Theorem C10_baseline_dq_exact_code : forall f el cx fr, f_has_obs fr = true ->
+  exists dq ws, dataclass code_params f Baseline el cx fr = Accepted dq ws /\ NoDup dq /\
+    forall n, In n dq <->
+      violates_baseline f el fr n \/ (n = OffcycleReads /\ f = Billing /\ x_offcycle cx = true /\ gen_offcycle_dq = true).
+Proof. exact (baseline_dq_exact_code_l C10_code_params_published). Qed.
+Print Assumptions C10_baseline_dq_exact_code.
+
+Theorem C10_reporting_dq_exact_code : forall f el cx fr, gen_reporting_flag f = true -> usage_irrelevant fr ->
+  exists dq ws, dataclass code_params f Reporting el cx fr = Accepted dq ws /\ NoDup dq /\
+    forall n, In n dq <->
+      violates_reporting f fr n \/ (n = OffcycleReads /\ f = Billing /\ x_offcycle cx = true /\ gen_offcycle_dq = true).
+Proof. exact (reporting_dq_exact_code_l C10_code_params_published). Qed.
+Print Assumptions C10_reporting_dq_exact_code.
+
+(* ---- the refuted corners, for the code as it is (each under the regenerated flag that causes it) ---- *)
+Theorem C10_code_offcycle_refuted : gen_offcycle_dq = true -> forall el fr, f_has_obs fr = true ->
+  In OffcycleReads (dq_of (dataclass code_params Billing Baseline el cx_off fr)) /\
+  ~ In OffcycleReads (dq_of (dataclass code_params Billing Baseline el cx0 fr)) /\
+  ~ violates_baseline Billing el fr OffcycleReads.
+Proof. intros H el fr. exact (refuted_offcycle_l code_params el fr C10_code_params_published H). Qed.
+Print Assumptions C10_code_offcycle_refuted.
+
+Theorem C10_code_hourly_reporting_refuted : gen_reporting_flag Hourly = false ->
+  let fr := mkframe true false (ex_no_usage 340) in
+  In NoData (dq_of (dataclass code_params Hourly Reporting true cx0 fr)) /\ ~ violates_reporting Hourly fr NoData.
+Proof. intro H. exact (hourly_reporting_no_usage_l code_params true cx0 340 ltac:(repeat constructor) C10_code_params_published H). Qed.
+Print Assumptions C10_code_hourly_reporting_refuted.
+
+Theorem C10_code_reporting_partial_usage_refuted : gen_reporting_flag Daily = true ->
+  ~ In TooManyDaysMissingTemperature (dq_of (dataclass code_params Daily Reporting true cx0 ex_rep_partial)) /\
+  violates_reporting Daily ex_rep_partial TooManyDaysMissingTemperature.
+Proof. intro H. exact (reporting_partial_usage_l code_params Daily true cx0 C10_code_params_published H). Qed.
+Print Assumptions C10_code_reporting_partial_usage_refuted.
